@@ -281,6 +281,7 @@ def do_op(ctx, aid, oi, table, op):
         label, want_end, raise_at = op[1], op[2], op[3]
         notify_n = op[4] if len(op) > 4 else None
         notify_latch = ctx.latch(op[5]) if len(op) > 5 and op[5] else None
+        end_latch = ctx.latch(op[6]) if len(op) > 6 and op[6] else None
         state = {"n": 0}
         cbid = (aid, oi)
 
@@ -289,6 +290,8 @@ def do_op(ctx, aid, oi, table, op):
             state["n"] = n + 1
             if item is ENDM or item == ENDM:
                 ctx.rec(aid, oi, "cb", ("end", label))
+                if end_latch is not None:
+                    end_latch.set()
             else:
                 ctx.rec(aid, oi, "cb", ("item", token_of(item), canon(item), label))
                 if notify_latch is not None and n + 1 == notify_n:
